@@ -60,6 +60,36 @@ def install():
     # address-based hashing -> seeded, replayable hashing (set iteration order over cobra
     # objects becomes a schedule dimension owned by the simulator)
     Object.__hash__ = _obj_hash
+    # The sequence number lives in the instance dict; it must not travel with pickled / deep-copied state: an object that is hashed
+    # while it is still being unpickled (the root of a pickle inside a set of its own model) would otherwise change its hash when
+    # its state arrives - an artefact of this seam, real objects hash by identity.  Copies get their own number at first use.
+    import cobra.core as cc
+
+    seen = set()
+
+    def _wrap(cls):
+        gs = cls.__dict__.get("__getstate__")
+        if gs is None or getattr(gs, "_vseq_wrapped", False):
+            return
+
+        def __getstate__(self, _gs=gs):
+            st = _gs(self)
+            if isinstance(st, dict) and "_vseq" in st:
+                st = dict(st)
+                st.pop("_vseq", None)
+            return st
+
+        __getstate__._vseq_wrapped = True
+        cls.__getstate__ = __getstate__
+
+    stack = [Object]
+    while stack:
+        c = stack.pop()
+        if c in seen:
+            continue
+        seen.add(c)
+        _wrap(c)
+        stack.extend(c.__subclasses__())
     # uuid1 names of optlang objectives/constraints -> per-run counter
 
     class _U:
